@@ -345,6 +345,7 @@ Fixpoint discard_loop (fuel n : nat) (done : nat) (l : lbuf) : outcome (nat * lb
     end
   end.
 Definition discard (n : nat) (l : lbuf) : outcome (nat * lbuf) :=
+  if n =? 0 then Ok (0, l) else        (* if size <= 0 { return 0, nil } *)
   do (k, l1) <- discard_loop (S (length (slices l))) n 0 l;
   Ok (k, set_len l1 (len l1 - Z.of_nat k)).
 
@@ -535,6 +536,7 @@ Definition sl_reserve (m : shm) (l : lbuf) (i : nat) (s : slice) (bs : list byte
 (* Reserve(size) + fill: three-way *)
 Definition reserve (bs : list byte) (m : shm) (l : lbuf) : outcome (shm * lbuf) :=
   let size := length bs in
+  if size =? 0 then Ok (m, l) else     (* if size <= 0 { return nil, nil } *)
   let '(m0, l0) := ensure_wslice m l size in
   do (i, s) <- wslice l0;
   match sl_reserve m0 l0 i s bs with
@@ -644,6 +646,7 @@ Record sys := { mem : shm; snd : lbuf; infb : bool; pend : list pitem; rcv : lbu
 Inductive op :=
 | WBytes (bs : list byte) | WByte (b : byte) | WReserve (bs : list byte) | WString (bs : list byte)
 | WWrite (bs : list byte) | WFlush
+| WAdopt (n : nat)   (* the send buffer starts with the reset slice ReleaseReadAndReuse leaves behind *)
 | RBytes (n : nat) | RPeek (n : nat) | RDiscard (n : nat) | RByte | RString (n : nat) | RRead (n : nat)
 | RRelease | RReleaseReuse | RClose
 | OAlloc (n : nat) | OFill (i : nat) (bs : list byte) | OFree (i : nat).
@@ -699,13 +702,25 @@ Definition step (s : sys) (o : op) : outcome (res * sys) :=
              do s2 <- flush (with_mem_snd s m1 l1); Ok (RN n, s2)
       end
   | WFlush => do s1 <- flush s; Ok (RUnit, s1)
+  | WAdopt n =>
+      (* state after Stream.ReleaseReadAndReuse swapped an emptied receive buffer holding one reset shm
+         slice into the send position: sliceList = [slice], writeSlice = slice, len = 0 *)
+      match slices (snd s), wpos (snd s) with
+      | [], WNil =>
+          match allocShmBuffer (mem s) n with
+          | Some (b, m1) => Ok (RN 1, with_mem_snd s m1 (set_wpos (push_back (snd s) b) (WAt 0)))
+          | None => Ok (RN 0, s)
+          end
+      | _, _ => Ok (RN 0, s)
+      end
   | RBytes n => if n =? 0 then Ok (RData [], s) else
                 do s1 <- read_more n s; rd_op s1 (fun m l => read_bytes m n l) RData
   | RPeek n => if n =? 0 then Ok (RData [], s) else
                do s1 <- read_more n s; rd_op s1 (fun m l => peek m n l) RData
   | RString n => if n =? 0 then Ok (RData [], s) else
                  do s1 <- read_more n s; rd_op s1 (fun m l => read_string m n l) RData
-  | RDiscard n => do s1 <- read_more n s; rd_op s1 (fun _ l => discard n l) RN
+  | RDiscard n => if n =? 0 then Ok (RN 0, s) else
+                  do s1 <- read_more n s; rd_op s1 (fun _ l => discard n l) RN
   | RByte => do s1 <- read_more 1 s; rd_op s1 (fun m l => read_byte m l) RB
   | RRead n => if n =? 0 then Ok (RData [], s) else
                do s1 <- read_more 1 s; rd_op s1 (fun m l => read_copy m n l) RData
